@@ -486,7 +486,7 @@ def run_history(desc):
 
 class History(Facet):
     name = "history"
-    examples = {"quick": 20000, "thorough": 720000}
+    examples = {"quick": 20000, "thorough": 480000}
     shards = {"quick": 16, "thorough": 16}
 
     def strategy(self, tier):
